@@ -83,6 +83,7 @@ class Contract:
     loops: dict = {}
     inline = None  # None = inline every uncontracted repo callee; or a set of qualnames
     uses: tuple = ()  # contract classes applied at call sites (modular reasoning)
+    native_shards: int = 1  # the native case list is split over this many worker processes
     trusted: tuple = ()  # assumed contracts on callees (not verified in this property)
     assumptions: tuple = ()
     max_paths = 4000
